@@ -145,6 +145,7 @@ class Engine(object):
         self.solver_time = 0.0
         self.queries = 0
         self.int_mode = 'bv'
+        self.deadline = None
         self._reset_path([])
 
     # -- path state --------------------------------------------------------
@@ -169,6 +170,9 @@ class Engine(object):
         Engine.current = self
         try:
             while work:
+                if self.deadline is not None and time.time() > self.deadline:
+                    self.notes.append('unit wall-clock budget exceeded: remaining paths NOT explored')
+                    raise Unsupported('wall-clock budget of unit %s exceeded after %d paths' % (self.unit, len(self.paths)))
                 if len(self.paths) >= self.max_paths:
                     self.notes.append('path cap %d reached: remaining paths NOT explored' % self.max_paths)
                     raise Unsupported('path cap reached in unit %s' % self.unit)
@@ -236,13 +240,28 @@ class Engine(object):
         return SOpaque(z3.Const(self.fresh_name(base), sort), kind)
 
     # -- path condition ------------------------------------------------------
+    def _guarded_check(self):
+        """solver.check() with a watchdog: z3's own timeout is not always honoured (nonlinear / quantified goals)."""
+        import threading
+        ctx = self.solver.ctx
+        timer = threading.Timer(self.timeout_ms / 1000.0 + 2.0, ctx.interrupt)
+        timer.daemon = True
+        timer.start()
+        try:
+            try:
+                return self.solver.check()
+            except z3.Z3Exception:
+                return z3.unknown
+        finally:
+            timer.cancel()
+
     def _check(self, extra=None):
         t0 = time.time()
         self.queries += 1
         if extra is not None:
             self.solver.push()
             self.solver.add(extra)
-        r = self.solver.check()
+        r = self._guarded_check()
         if extra is not None:
             self.solver.pop()
         self.solver_time += time.time() - t0
@@ -346,10 +365,12 @@ class Engine(object):
             if backend.startswith('z3'):
                 self.solver.push()
                 self.solver.add(z3.Not(t))
-                self.solver.check()
-                m = self.solver.model()
+                r3 = self._guarded_check()
+                try:
+                    model = Model(self.solver.model()) if r3 == z3.sat else None
+                except z3.Z3Exception:
+                    model = None
                 self.solver.pop()
-                model = Model(m)
             ob = Obligation(self.unit, label, self.path_id, FAILED, backend, dt,
                             model=model.as_dict() if model else None, note=note, kind=kind)
             ob_model = model
@@ -389,8 +410,11 @@ class Engine(object):
         if extra is not None:
             self.solver.push()
             self.solver.add(term_bool(extra))
-        r = self.solver.check()
-        m = Model(self.solver.model()) if r == z3.sat else None
+        r = self._guarded_check()
+        try:
+            m = Model(self.solver.model()) if r == z3.sat else None
+        except z3.Z3Exception:
+            m = None
         if extra is not None:
             self.solver.pop()
         return m
